@@ -8,4 +8,4 @@ From Fibre Require Import Common.Base Cache.PolicySpec Cache.PolicyLru Cache.Pol
 Extraction Language OCaml.
 Set Extraction KeepSingleton.
 Extraction "model_cache.ml"
-  step init LruP FifoP SieveP ClockP NullP impl_fixes all_fixes U64_MAX.
+  step init LruP FifoP SieveP ClockP NullP impl_fixes all_fixes no_fixes U64_MAX.
